@@ -399,6 +399,19 @@ def rt_sigcmp(req):
                             problems.append('eq-ne: %r vs %r: == %r, != %r' % (x, y, e_, n_))
                         if e_ and hash(x) != hash(y):
                             problems.append('eq-hash: %r == %r (a signature / parameter of a PEP 563 function and a copy) but their hashes differ' % (x, y))
+            for dv in ([], {}, [1], {'k': []}):
+                pu = S.UpgradedParameter('a', inspect.Parameter.POSITIONAL_OR_KEYWORD, default=dv)
+                su1 = S.UpgradedSignature([pu], sources={'+depths': {}})
+                su2 = S.UpgradedSignature([S.UpgradedParameter('a', inspect.Parameter.POSITIONAL_OR_KEYWORD, default=type(dv)(dv))], sources={'+depths': {}})
+                ip = inspect.Signature([inspect.Parameter('a', inspect.Parameter.POSITIONAL_OR_KEYWORD, default=dv)])
+                for x, y in ((su1, su1), (su1, su2), (su1, su1.replace()), (su1, ip), (ip, su1), (pu, pu), (su1, None)):
+                    try:
+                        e_, n_ = (x == y), (x != y)
+                    except Exception as ex:  # noqa
+                        problems.append('comparison-raises: comparing signatures / parameters with the unhashable default %r raised %s' % (dv, type(ex).__name__))
+                        break
+                    if e_ is not (not n_) or (y is not None and e_ is not True):
+                        problems.append('eq-unhashable-default: %r == %r gives %r / != gives %r' % (x, y, e_, n_))
             nan = float('nan')
             pn = S.UpgradedParameter('a', inspect.Parameter.POSITIONAL_OR_KEYWORD, default=nan)
             if not (pn == pn) or not (S.UpgradedSignature([pn], sources={'+depths': {}}) == S.UpgradedSignature([pn], sources={'+depths': {}})) \
@@ -882,6 +895,37 @@ def rt_modorder(req):
             except TypeError:
                 calls.append('typeerror')
         outcomes.setdefault((sig, isig, tuple(calls)), []).append([steps[i][0] for i in order])
+    # autokwoargs applied over another modifier (possibly with nothing left to convert): what it advertises is what it does
+    for label, inner_dec in ([('posoargs', modifiers.posoargs(*Pn))] if Pn else []) + [('kwoargs:' + w, modifiers.kwoargs(w)) for w in Wn[:1]]:
+        f = core.make_def(tuple(ps), body=real_mod.ret_body(ps) + '  # autoover %s' % label)
+        try:
+            with warnings.catch_warnings():
+                warnings.simplefilter('ignore')
+                inner = inner_dec(f)
+                g = modifiers.autokwoargs(inner)
+                gsig = sigtools.signature(g)
+        except ValueError:
+            continue
+        ponames = {q.name for q in gsig.parameters.values() if q.kind == q.POSITIONAL_ONLY}
+        for args, kw in _small_calls(ps):
+            if ponames & set(dict(kw)):
+                continue      # a keyword naming a positional-only parameter alongside **kwargs: excluded by C12 (version-dependent binder)
+            try:
+                gsig.bind(*args, **dict(kw))
+                acc_ = True
+            except TypeError:
+                acc_ = False
+            try:
+                g(*args, **dict(kw))
+                ran = 'ok'
+            except TypeError:
+                ran = 'TypeError'
+            except RecursionError:
+                ran = 'RecursionError'
+            if (ran == 'ok') != acc_ or ran == 'RecursionError':
+                problems.append('autokwoargs-over-modifier: autokwoargs over %s on %s advertises %s, which %s the call %s %s, but the call gives %s' % (
+                    label, core.fmt_params(ps), gsig, 'accepts' if acc_ else 'rejects', args, dict(kw), ran))
+                break
     if len(outcomes) > 1:
         it = list(outcomes.items())
         problems.append('order-dependent: %s: order %s gives %s but order %s gives %s' % (
@@ -1705,6 +1749,49 @@ def rt_annotate_discovery(req):
 RT['annotate_discovery'] = rt_annotate_discovery
 
 
+_NONE_SRC = '''%s
+from sigtools import modifiers, signatures
+def g(a: int, *args, **kwargs) -> None: pass
+def h(b: str = 'x') -> None: pass
+@modifiers.annotate(None, a=int)
+def an(a, b=1): pass
+'''
+
+
+def rt_none_annotation(req):
+    """`None` is an annotation like any other: `-> None` evaluates to None for eager and postponed twins alike, through
+    evaluated() of retrieved and combined signatures, and annotate(None, ...) reports it"""
+    from . import progs
+    out = {}
+    problems = []
+    for future in ('', 'from __future__ import annotations'):
+        mod, fname = progs.load_module(_NONE_SRC % future)
+        try:
+            with warnings.catch_warnings():
+                warnings.simplefilter('ignore')
+                sg, sh = sigtools.signature(mod.g), sigtools.signature(mod.h)
+                vals = {
+                    'signature': sg.evaluated().return_annotation,
+                    'mask': signatures.mask(sg, 1).evaluated().return_annotation,
+                    'forwards': signatures.forwards(sg, sh).evaluated().return_annotation,
+                    'embed': signatures.embed(sg, sh).evaluated().return_annotation,
+                    'merge': signatures.merge(sg, sg).evaluated().return_annotation,
+                    'annotate': sigtools.signature(mod.an).evaluated().return_annotation,
+                    'annotate-raw': sigtools.signature(mod.an).return_annotation,
+                }
+            out[future] = vals
+            for k_, v_ in vals.items():
+                if v_ is not None:
+                    problems.append('none-annotation: %s of a function annotated `-> None` (%s) reports the return annotation %r' % (
+                        k_, future or 'eager module', v_))
+        finally:
+            progs.unload(fname)
+    return ('ok', tuple(problems[:2]), 'probed')
+
+
+RT['none_annotation'] = rt_none_annotation
+
+
 # ----------------------------------------------------------------------------- C18: re-decoration after use
 def _redeco_class(scenario):
     if scenario == 'pos_self_a':
@@ -1793,6 +1880,75 @@ def rt_redecorate(req):
 
 
 RT['redecorate'] = rt_redecorate
+
+
+def rt_wrap_identity(req):
+    """(1) a decorated method bound to one of two EQUAL instances runs on that instance, also while the other's bound wrapper is
+    still referenced; (2) Combination(deco(Combination(f, g)), h) is the composition written by hand: the decorator runs"""
+    problems = []
+    for kind in ('decorator', 'wrapper_decorator'):
+        dec = getattr(wrappers, kind)
+
+        @dec
+        def tag(func, *args, suffix='', **kwargs):
+            return ('tag', func(*args, **kwargs), suffix)
+
+        class Item(object):
+            def __init__(self, name):
+                self.name = name
+
+            def __eq__(self, other):
+                return isinstance(other, Item)
+
+            def __hash__(self):
+                return 7
+
+            @tag
+            def describe(self, x=0):
+                return (self.name, x)
+        a, b = Item('a'), Item('b')
+        held = a.describe                       # kept, as a registered callback would be
+        for inst in (b, a, b):
+            got = inst.describe(1, suffix='s')
+            want = ('tag', (inst.name, 1), 's')
+            if got != want:
+                problems.append('wrong-instance: %s-decorated method looked up on instance %r returned %r, the hand-written composition gives %r '
+                                '(another, equal, instance has its bound wrapper still referenced)' % (kind, inst.name, got, want))
+                break
+        del held
+
+        @dec
+        def limit(func, arg, *args, limit=10, **kwargs):
+            return min(func(arg, *args, **kwargs), limit)
+
+        def f(arg, step=1):
+            return arg + step
+
+        def g(arg, step=1):
+            return arg * 2
+
+        def h(arg, step=1):
+            return arg - step
+        inner = wrappers.Combination(f, g)
+        comb = wrappers.Combination(limit(inner), h)
+        for a_, k_ in (((60,), {}), ((60,), {'step': 5}), ((1,), {}), ((60,), {'limit': 100})):
+            try:
+                want = h(min(g(f(a_[0], **{x: v for x, v in k_.items() if x != 'limit'}), **{x: v for x, v in k_.items() if x != 'limit'}),
+                             k_.get('limit', 10)), **{x: v for x, v in k_.items() if x != 'limit'})
+            except TypeError:
+                want = 'TypeError'
+            try:
+                got = comb(*a_, **k_)
+            except TypeError:
+                got = 'TypeError'
+            if got != want and 'limit' not in k_:
+                problems.append('combination-not-transparent: Combination(%s(Combination(f, g)), h)%r %r returns %r, the composition written by hand %r' % (
+                    kind, a_, k_, got, want))
+                break
+    return ('ok', tuple(problems[:2]), 'probed')
+
+
+RT['wrap_identity'] = rt_wrap_identity
 
 
 def rt_window_resolution(req):
